@@ -208,12 +208,30 @@ func firstDiff(a, b string) string {
 
 func init() { chkShared.Journal = true; chkChan.Journal = true }
 
+const errorPathsPrologue = `do
+  local ft = {function(n) error("e" .. n) end, function(n) local z = nil return z.x end, function(n) return n end}
+  local obj = {m = function(self, n) error({n}) end}
+  for i = 1, #ft do emit(pcall(function() local r = ft[i](i) return r end)) end
+  emit(pcall(function() return ft[1](7) end))
+  emit(pcall(function() return (ft[2])(8) end))
+  emit(select(1, pcall(function() obj:m(9) end)))
+  emit(pcall(function() local name = "m" return obj[name](obj, 10) end) )
+  local co = coroutine.wrap(function() ft[2](11) end)
+  emit(pcall(co))
+end
+`
+
 func TestSharedProto(t *testing.T) {
 	profiles := []*lgen.Profile{lgen.Core(), lgen.Closures(), lgen.Coroutines(), lgen.Calls(), lgen.Meta()}
 	vf.Rapid(t, func(rt *rapid.T) {
 		p := profiles[rapid.IntRange(0, len(profiles)-1).Draw(rt, "profile")]
 		g := lgen.New(rt, p)
 		src := lgen.Print(g.Program(), &lgen.Layout{})
+		if rapid.Bool().Draw(rt, "errorpaths") {
+			// error paths as well: every caught error builds a traceback from the frames' debug information, also for frames
+			// entered through call sites without a static name (computed positions, tail calls, methods)
+			src = errorPathsPrologue + src
+		}
 		g2 := lgen.New(rt, lgen.Core())
 		noiseSrc := lgen.Print(g2.Program(), &lgen.Layout{})
 		c := &SharedCase{Src: src, Profile: p.Name, NoiseSrc: noiseSrc,
@@ -275,15 +293,32 @@ end
 
 const consumerSelectSrc = `
 local closed = false
+local sink = channel.make(3)
+local sunk = 0
 while not closed do
-  local idx, v, ok = channel.select({"|<-", ch}, {"|<-", ch2}, {"default"})
-  if idx == 3 then
+  -- handlers see what select returns: receive handlers (ok, value), send handlers (value), default handlers nothing
+  local hidx, hok, hv, hn
+  local idx, v, ok = channel.select(
+    {"<-|", sink, sunk + 1, function(...) hidx, hn, hv = 1, select('#', ...), ... end},
+    {"|<-", ch, function(...) hidx, hn, hok, hv = 2, select('#', ...), ... end},
+    {"|<-", ch2, function(...) hidx, hn, hok, hv = 3, select('#', ...), ... end},
+    {"default", function(...) hidx, hn = 4, select('#', ...) end})
+  if hidx ~= idx then error("select returned case " .. tostring(idx) .. " but ran the handler of case " .. tostring(hidx)) end
+  if idx == 4 then
+    if hn ~= 0 then error("the default handler got " .. hn .. " arguments") end
     yield()
-  elseif not ok then
-    if idx == 1 then closed = true end
-    if idx == 2 then error("ch2 is never closed") end
+  elseif idx == 1 then
+    sunk = sunk + 1
+    if hn ~= 1 or hv ~= sunk then error("the send handler got " .. tostring(hn) .. " arguments, first " .. tostring(hv) .. ", sent " .. sunk) end
+    if sunk % 3 == 0 then for i = 1, 3 do local ok2, got = sink:receive() if got ~= sunk - 3 + i then error("sink order") end end end
   else
-    record(v, idx)
+    if hn ~= 2 or hok ~= ok or hv ~= v then error("the receive handler got (" .. tostring(hok) .. ", " .. tostring(hv) .. "), select returned (" .. tostring(ok) .. ", " .. tostring(v) .. ")") end
+    if not ok then
+      if idx == 2 then closed = true end
+      if idx == 3 then error("ch2 is never closed") end
+    else
+      record(v, idx - 1)
+    end
   end
 end
 `
